@@ -989,6 +989,7 @@ def run_recipe_case(rng, case, idx, focus=None):
             M.bucket('C15/program_with_renaming_dilute')
         check_c09(prog, pdesc, rs, r, res, ledger, case, handles)
         check_c15(prog, pdesc, rs, r, res, ledger, case, handles)
+        check_step_tables(prog, pdesc, rs, r, res, ledger, case)
         check_c17_trash(prog, pdesc, rs, r, res, ledger, case, handles)
         check_c19_steps(prog, pdesc, rs, r, res, ledger, objects, case)
 
@@ -1237,6 +1238,55 @@ def check_c09(prog, pdesc, rs, r, res, ledger, case, handles):
 
 
 # --------------------------------------------------------------------------------------------------
+
+def check_step_tables(prog, pdesc, rs, r, res, ledger, case):
+    """RecipeStep.dataframe for steps whose source / destination is a container (the plate form needs a styling package that is
+    not installed here): the one-cell table states, in the unit asked for, what the container held of the substance after the step
+    ('final') or how that changed ('delta') - by the prefix-bake ledger."""
+    cf = R.cfg()
+    if len(r.steps) != len(rs):
+        return
+    rnd = __import__('random').Random(repr(pdesc)[:200] + 'tables')
+    for k, (st, step) in enumerate(zip(rs, r.steps)):
+        sides = []
+        if st['op'] == 'transfer':
+            if st['src'][1] is None and not is_plate(res[st['src'][0]]):
+                sides.append(('source', st['src'][0]))
+            if st['dst'][1] is None and not is_plate(res[st['dst'][0]]):
+                sides.append(('destination', st['dst'][0]))
+        elif st['op'] in ('fill_to', 'remove') and st['dst'][1] is None and not is_plate(res[st['dst'][0]]):
+            sides.append(('destination', st['dst'][0]))
+        elif st['op'] == 'dilute':
+            sides.append(('destination', st['dst']))
+        for side, nme in sides:
+            b4, af = ledger[k].get(nme), ledger[k + 1].get(nme)
+            if not isinstance(af, dict) or not isinstance(b4, dict):
+                continue
+            s = rnd.choice(prog['subs'])
+            unit = rnd.choice(['U', 'mg', 'uL', 'kU'] if R.is_enzyme(s) else ['umol', 'mg', 'uL', 'mmol', 'ng', 'mL'])
+            mode = rnd.choice(['final', 'delta'])
+            M.count('C15.step_table')
+            M.bucket(f'C15/step_table/{st["op"]}/{side}/{mode}')
+            try:
+                df = step.dataframe(data_source=side, substance=s, mode=mode, unit=unit)
+                got = float(df.iloc[0, 0])
+            except (MonitorBug, InjectedFault):
+                raise
+            except Exception as e:   # noqa
+                M.violate(['C15', 'C19'], 'LEDGER', f'C15:step_table_raised:{st["op"]}:{side}:{type(e).__name__}',
+                          {'step': k, 'unit': unit, 'mode': mode, 'exc': repr(e)[:200], 'program': pdesc})
+                continue
+            from_unit = 'U' if R.is_enzyme(s) else cf.mol_unit
+            amt = af.get(s, 0.0) - (b4.get(s, 0.0) if mode == 'delta' else 0.0)
+            exp = R.convert(s, amt, from_unit, unit)
+            tol = abs(R.convert(s, K * cf.q * 2, from_unit, unit)) + 0.5 * 10.0 ** (-cf.precision(unit)) * 1.000001 + 1e-9 * abs(exp)
+            if not M.ratio('C15.step_table', got, exp, tol):
+                M.violate(['C15', 'C19'], 'LEDGER', f'C15:step_table_ne_ledger:{st["op"]}:{side}:{mode}',
+                          {'step': k, 'container': nme, 'substance': s.name, 'unit': unit, 'mode': mode, 'got': got, 'expected': exp, 'tol': tol,
+                           'program': pdesc})
+            else:
+                M.note_nontrivial(case.get('prop', 'C15'), ('table', k, nme, s.name, unit, mode, repr(pdesc)[:600]))
+
 
 def check_c15(prog, pdesc, rs, r, res, ledger, case, handles):
     pp = PP()
